@@ -13,6 +13,7 @@
 #include <sys/epoll.h>
 #include <sys/mman.h>
 #include <sys/socket.h>
+#include <sys/stat.h>
 #include <sys/timerfd.h>
 #include <sys/uio.h>
 #include <sys/un.h>
@@ -454,7 +455,16 @@ int simk_close(int fd)
 	return 0;
 }
 
-int simk_unlink(const char *path) { (void)path; K().calls_this_iter++; return 0; }
+int simk_unlink(const char *path)
+{
+	Kernel &k = K();
+	k.calls_this_iter++;
+	int e = fault("unlink");
+	if (e) { errno = e; return -1; }
+	auto it = k.file_by_path.find(path);
+	if (it != k.file_by_path.end()) { k.file_by_path.erase(it); k.snap("unlink"); }
+	return 0;
+}
 int simk_daemon(int a, int b) { (void)a; (void)b; K().daemonized = true; return 0; }
 int simk_shutdown(int fd, int how) { (void)how; Fd *f = need(fd, "shutdown"); return f ? 0 : -1; }
 
@@ -788,6 +798,19 @@ int simk_ftruncate(int fd, off_t len)
 	if (e) { errno = e; return -1; }
 	k.file_content[f->file].resize((size_t)len, '\0');
 	k.snap("ftruncate");
+	return 0;
+}
+
+int simk_fstat(int fd, struct stat *st)
+{
+	Kernel &k = K();
+	Fd *f = need(fd, "fstat");
+	if (!f) return -1;
+	int e = fault("fstat");
+	if (e) { errno = e; return -1; }
+	memset(st, 0, sizeof *st);
+	if (f->kind == K_FILE) { st->st_mode = S_IFREG | 0640; st->st_size = (off_t)k.file_content[f->file].size(); }
+	else st->st_mode = S_IFSOCK | 0600;
 	return 0;
 }
 
